@@ -209,7 +209,7 @@ def shuffle_keys(obj, rng):
     return obj
 
 
-def spec_id_checks(run, case, scratch, rng, trace_spec_id):
+def spec_id_checks(run, case, scratch, rng, trace_spec_id, launch_records=None):
     """inspect vs trace; cosmetic rewrites keep the spec id; plan mutations change it."""
     import yaml
     from vlib import cli
@@ -235,6 +235,32 @@ def spec_id_checks(run, case, scratch, rng, trace_spec_id):
         run.violation("spec_id_inspect_differs_when_run_space_declared_in_both_places",
                       f"inspect prints {sid_both} for a file that declares the run space at top level and another one under pipeline:, "
                       f"{sid} for the top-level block alone (the top-level block is the one `semantiva run` executes)", dict(witness, decoy=decoy))
+    # the block that EXECUTES comes from --run-space-file; the YAML declares another (decoy) block inline, or none:
+    # run_space_start must carry the id of the block whose plan runs (what inspect prints for that block declared inline)
+    if sid not in (None, "none") and not any(b.get("source") for b in case["run_space"]["blocks"]):
+        ov = os.path.join(wd, "rs_override.yaml")
+        with open(ov, "w") as fh:
+            yaml.safe_dump({"run_space": case["run_space"]} if rng.random() < 0.5 else case["run_space"], fh, sort_keys=False)
+        inline = decoy if rng.random() < 0.6 else None
+        ores = cli.run_launch(dict(case, run_space=inline), os.path.join(wd, "ovl"), trace_mode="file", detail="hash",
+                              extra_argv=["--run-space-file", ov])
+        orecs = cli.global_order(ores["files"])
+        ostarts = [r for r in orecs if r.get("record_type") == "run_space_start"]
+        run.count("override_file_launches")
+        ow = dict(witness, inline_block=inline, override_file_has=case["run_space"])
+        if len(ostarts) != 1:
+            run.violation("override_file_launch_without_run_space_start", f"{len(ostarts)} run_space_start records (rc={ores['res'].rc})", ow)
+        else:
+            osid = ostarts[0].get("run_space_spec_id")
+            if osid != sid:
+                run.violation("spec_id_of_override_file_launch_is_not_the_executed_block",
+                              f"launch with --run-space-file: run_space_start carries {osid}; the block that executes has id {sid} "
+                              f"(inline block: {'a different one' if inline else 'none'})", dict(ow, trace=osid, inspect=sid))
+            if launch_records is not None:
+                n0 = sum(1 for r in launch_records if r.get("record_type") == "pipeline_start")
+                n1 = sum(1 for r in orecs if r.get("record_type") == "pipeline_start")
+                if n0 != n1:
+                    run.violation("override_file_launch_runs_another_plan", f"{n1} runs, the same block declared inline gave {n0}", ow)
     # cosmetic rewrites
     for j in range(3):
         rs = shuffle_keys(copy.deepcopy(case["run_space"]), rng)
@@ -340,8 +366,21 @@ def inputs_id_checks(run, scratch, rng):
     with open(src, "w", newline="") as fh:       # the ORIGINAL rows again, but with CR LF line endings: other bytes
         fh.write(content.replace("\n", "\r\n"))
     e = launch("e")
-    run.count("inputs_id_launches", 5)
-    w = {"a": a, "b": b, "c": c, "d": d, "e": e}
+    # other bytes of the SAME length with the modification time preserved (cp -p, rsync -t, an archive extracted over it)
+    st = os.stat(src)
+    body = content.replace("\n", "\r\n")
+    k = next(i for i, ch in enumerate(body) if ch.isdigit())
+    body_f = body[:k] + ("7" if body[k] != "7" else "3") + body[k + 1:]
+    os.makedirs(os.path.join(wd, "f"), exist_ok=True)
+    with open(src, "w", newline="") as fh:
+        fh.write(body_f)
+    os.utime(src, ns=(st.st_atime_ns, st.st_mtime_ns))
+    f = launch("f")
+    run.count("inputs_id_launches", 6)
+    w = {"a": a, "b": b, "c": c, "d": d, "e": e, "f": f}
+    if e[0] is not None and f[0] == e[0] and os.stat(src).st_size == st.st_size:
+        run.violation("inputs_id_unchanged_after_content_change:same_size_same_mtime",
+                      f"inputs id unchanged although the file's bytes changed (same length, modification time preserved): {w}", w)
     if a[0] is not None and e[0] == a[0]:
         run.violation("inputs_id_unchanged_after_content_change", f"inputs id unchanged although the file's bytes changed (LF -> CR LF line endings): {w}", w)
     if a[0] is None:
@@ -400,7 +439,7 @@ def run(run):
                     run.violation("generated_launch_id_repeats", f"generated launch id {launch_id} repeated", {"ids": generated_ids})
                 generated_ids.append(launch_id)
             if li % 2 == 0 or any("source" in b for b in case["run_space"]["blocks"]):
-                spec_id_checks(run, case, scratch, rng, spec_id)
+                spec_id_checks(run, case, scratch, rng, spec_id, launch_records=records)
             shutil.rmtree(wd, ignore_errors=True)
             run.case(canon_hash([case["nodes"], case["run_space"], case["first_fail"], mode, idopt, attempt]), len(case["plan"]) >= 2,
                      sample={"nodes": case["nodes"], "run_space": case["run_space"], "first_fail": case["first_fail"], "mode": mode,
@@ -412,6 +451,7 @@ def run(run):
     run.floor("standalone_runs", 8)
     run.floor("pipeline_starts_checked", 8)
     run.floor("inspect_runs", 1)
+    run.floor("override_file_launches", 1)
     run.assumptions += ["plan computed by an own expansion (vlib.cli.expand_plan) of context-only blocks; the real expansion is checked by C08",
                         "comparison with the standalone run removes run ids, timestamps, durations, seq and the run-space foreign-key fields only"]
 
